@@ -621,6 +621,9 @@ func (c *SpecCtx) call(e *SExpr) Val {
 			return scalar(c.eval(args[0]).T, Ite(Ge(a, zero), a, Neg(a)))
 		case "real":
 			return scalar(tFloat, ToReal(c.evalTerm(args[0])))
+		case "ref": // identity of a reference / interface payload
+			x := c.eval(args[0])
+			return intVal(x.C[len(x.C)-1])
 		case "toint": // integer part of a non-negative real (floor)
 			return intVal(App("to_int", SInt, ToReal(c.evalTerm(args[0]))))
 		case "strpadleft": // astikit.StrPad(s, ch, n, PadLeft)
